@@ -483,7 +483,7 @@ def check_d(ctx, facts):
         return
     pos, leaf = posn[0], leafn[0]
     al2 = {k: v for k, v in al.items() if k not in (pos, leaf)}
-    scen = [(-1, 0, False), (-1, 3, False), (0, 1, True), (0, 0, False), (1, 2, True), (2, 1, False), (0, 5, True), (3, 3, False), (4, 5, True)]
+    scen = [(-1, 0, False), (-1, 3, False), (0, 1, True), (0, 0, 'self'), (1, 2, True), (2, 1, False), (0, 5, True), (3, 3, 'self'), (4, 5, True)]
     okg = True
     for pv, iv, want in scen:
         try:
@@ -502,6 +502,16 @@ def check_d(ctx, facts):
             setf = any(e.kind == 'stmt' and isinstance(e.node, ast.Assign) and any(isinstance(t, ast.Name) and t.id == flag for t in e.node.targets)
                        and norm(e.node.value) == 'True' for e in evs)
             swapped = bool(stores)
+            if want == 'self':
+                # pos == i: the block is its own first dependent (its output feeds its own input): a combinational
+                # cycle, which must be refused - by raising here or by a swap+flag that keeps the passes going until the bound raises
+                if ex == 'raise' or (swapped and setf):
+                    ctx.ok('C04.e', 'self-loop-refused:pos=i=%d' % pv, 'a block that is its own dependent keeps the sorter unstable (bound raises) or raises at once')
+                else:
+                    okg = False
+                    ctx.violation('C04.e', 'self-loop-refused', 'a block whose output feeds its own input (pos == i) is accepted as sorted: the cyclic netlist is simulated instead of refused',
+                                  where, witness=dict(netlist="a = sys.wire('a'); Not(sys, 'n', a, a); sys.getSimulator()", pos=pv, i=iv))
+                continue
             if swapped != want or (want and not setf) or ex in ('break', 'return'):
                 okg = False
                 ctx.violation('C04.d', 'swap-guard:pos=%d,i=%d' % (pv, iv),
@@ -697,8 +707,8 @@ def run(ctx, sm, facts):
 
 
 SELFVAL = [
-    dict(name='swap guard pos>0', file=SIM, old='if (pos >= 0 and pos < i):', new='if (pos > 0 and pos < i):', expect='C04.d'),
-    dict(name='swap guard <=', file=SIM, old='if (pos >= 0 and pos < i):', new='if (pos >= 0 and pos <= i):', expect='C04.d'),
+    dict(name='swap guard pos>0', file=SIM, old='if (pos >= 0 and pos <= i):', new='if (pos > 0 and pos <= i):', expect='C04.d'),
+    dict(name='self loop accepted', file=SIM, old='if (pos >= 0 and pos <= i):', new='if (pos >= 0 and pos < i):', expect='C04.e'),
     dict(name='first sink only', file=SIM, old="                if (sink.isPropagatable()):\n                    sinks.append(sink)\n",
          new="                if (sink.isPropagatable()):\n                    sinks.append(sink)\n                break\n", expect='C04.d'),
     dict(name='max instead of min', file=SIM, old='            if (pos < minPos):', new='            if (pos > minPos):', expect='C04.d'),
@@ -710,7 +720,7 @@ SELFVAL = [
     dict(name='refactor: tuple swap', file=SIM,
          old="                    first = self.propagatables[pos]\n                    self.propagatables[pos] = leaf\n                    self.propagatables[i] = first\n",
          new="                    self.propagatables[pos], self.propagatables[i] = self.propagatables[i], self.propagatables[pos]\n", expect=None),
-    dict(name='refactor: guard as chained comparison', file=SIM, old='if (pos >= 0 and pos < i):', new='if 0 <= pos < i:', expect=None),
+    dict(name='refactor: guard as chained comparison', file=SIM, old='if (pos >= 0 and pos <= i):', new='if 0 <= pos <= i:', expect=None),
 ]
 
 
